@@ -171,6 +171,7 @@ let clause_str (c : Checks.clause) : string =
   | Checks.ClNoDeepSleep -> "no-deep-sleep"
   | Checks.ClSleepNotLast -> "deep-sleep-not-last"
   | Checks.ClNoReset -> "no-reset-first"
+  | Checks.ClNoResetPulse -> "no-reset-pulse"
   | Checks.ClResetTiming -> "reset-timing"
   | Checks.ClRegisters f -> Printf.sprintf "registers-differ field=%d" (i f)
   | Checks.ClGeomReg c -> Printf.sprintf "geometry-register cmd=%02x" (i c)
@@ -195,6 +196,7 @@ let main (parse_op : int -> string list -> Ops.op) (bufs : (int * int, Bytes.t) 
           let lref r = Oracle.lut_ref feat p r in
           let lr0 = lref (n 0) and lr1 = lref (n 1) in
           let lref r = if int_of_n r = 0 then lr0 else if int_of_n r = 1 then lr1 else [] in
+          let cref = Oracle.clear_ref feat p in
           let slices = L.concat_map (fun (en : PSpec.entry) ->
                            L.map (fun (t : PSpec.target) -> (int_of_n t.PSpec.t_off, int_of_n t.PSpec.t_len)) en.PSpec.en_targets)
                          p.PSpec.ps_entries in
@@ -227,7 +229,7 @@ let main (parse_op : int -> string list -> Ops.op) (bufs : (int * int, Bytes.t) 
                              Hashtbl.iter (fun (k, a) b -> if k = i then register_buffer slices k a (Bytes.to_string b)) bufs;
                              curcall := i;
                              let ic = icalls_of_lines lines in
-                             let (o1, fails) = Oracle.observe p Sys.sym lref isig (n i) o0 o ic in
+                             let (o1, fails) = Oracle.observe p Sys.sym lref isig cref (n i) o0 o ic in
                              os := Some o1;
                              L.iter (fun (pn, cl) -> Printf.printf "F %s %d %s C%02d %s\n" c.id i nm (int_of_n pn) (clause_str cl)) fails))
             c.ops)
